@@ -36,6 +36,12 @@ pub mod verif_hooks {
     pub static SUBS_FLUSHED: AtomicU64 = AtomicU64::new(0);
     pub static UPDATES_FLUSHED: AtomicU64 = AtomicU64::new(0);
     pub const MANUAL_TICK: std::time::Duration = std::time::Duration::from_millis(15);
+    /// in manual mode: the FLUSH_GEN value at which each loop (subscription or update feed id) last flushed
+    pub static FLUSHED_AT: std::sync::Mutex<std::collections::BTreeMap<uuid::Uuid, u64>> =
+        std::sync::Mutex::new(std::collections::BTreeMap::new());
+    pub fn flushed(id: uuid::Uuid, flush_gen: u64) {
+        FLUSHED_AT.lock().unwrap().insert(id, flush_gen);
+    }
     /// in manual mode: every candidate map handed to a handle, (manager kind, table, pk, cl)
     pub static SENT: std::sync::Mutex<Vec<Vec<(String, String, Vec<u8>, i64)>>> =
         std::sync::Mutex::new(Vec::new());
@@ -424,6 +430,7 @@ async fn batch_candidates(
                         break;
                     }
                     buf_count = 0;
+                    verif_hooks::flushed(id, flush_gen);
                     verif_hooks::UPDATES_FLUSHED.fetch_add(1, std::sync::atomic::Ordering::SeqCst);
                     continue;
                 }
